@@ -2,7 +2,8 @@
 from common import *
 import scripts
 
-THEOREMS = ['tag_takeFromIf0', 'pnvE_eq', 'absent_untouched_if', 'absent_untouched_if_ne', 'absent_untouched', 'absent_iff_if', 'reread', 'present_if', 'mandatory_run', 'primitive_on_constructed', 'constructed_on_primitive', 'Bcder.Props.C02.pnv_eq']
+THEOREMS = ['tag_takeFromIf0', 'pnvE_eq', 'absent_untouched_if', 'absent_untouched_if_ne', 'absent_untouched', 'absent_iff_if', 'reread', 'present_if', 'mandatory_run', 'primitive_on_constructed', 'constructed_on_primitive', 'Bcder.Props.C02.pnv_eq', 'Bcder.Props.C11c.framable_pnv', 'Bcder.Props.C11c.absent_untouched_framed', 'Bcder.Props.C11c.absent_untouched_if_framed']
+EXTRA_MODULES = ['C11c']
 RULE = ("every optional accessor (take_opt_value[_if], take_opt_primitive[_if], take_opt_constructed[_if], take_opt_sequence/set, typed "
         "take_opt_bool/u8/u16/u32/u64, skip_opt_u8_if, take_opt_null, Oid::take_opt/skip_opt, OctetString::take_opt_from, skip_opt) x expected "
         "tags of 1-4 octets x positions (start/middle/end) in definite, indefinite and top-level parents x next value in {matching, other tag, "
@@ -182,4 +183,4 @@ def nontrivial(req, ans):
 
 LEVEL = "proof"
 LEVEL_TEXT = ("Lean 4 theorems for EVERY source state without open capture, every Constructed state (definite/indefinite/done/top level), every mode, every expected tag (class <= 3, number <= 0x1FFFFF) and ANY closure: process_next_value(Some(expected), op) - the engine of all take_opt_*_if / take_*_if readers - is a closed function of the limited view (pnvE_eq; pnv_eq for the untagged readers); a read that reports absence leaves source and Constructed exactly as they were, except for the end-of-contents octets that close an indefinite parent (absent_untouched_if, absent_untouched); absence is reported exactly when the enclosing value has ended, nothing is left in view, or the next identifier is a complete identifier of another tag (absent_iff_if); the position can then be read under another expectation (reread); a present value is handed to the closure as exactly the next value (present_if, bodyF shared with C02); mandatory variants turn absence into a content error (mandatory_run); form-restricted variants fail on the other form. Correspondence: optional/tagged reads in all states, re-reads after absence, damaged identifiers, on slice and streaming sources.")
-LEVEL_NOTE = ("Trusted: Lean 4.33 kernel; axioms propext, Classical.choice, Quot.sound only; the hand-written model (lean/Bcder/Model) tied to /repo on every run by differential correspondence (tools/check.py, harness/, lean/Driver.lean). Stated on runG0 = SliceSource semantics (runG refines it; C07 carries capture-free reads to every conforming source). Edge the theorems make explicit: with no octets left in view (truncated input) a tagged optional read reports absence in every state; the parent's exhaustion check then rejects the input.")
+LEVEL_NOTE = ("Trusted: Lean 4.33 kernel; axioms propext, Classical.choice, Quot.sound only; the hand-written model (lean/Bcder/Model) tied to /repo on every run by differential correspondence (tools/check.py, harness/, lean/Driver.lean). Stated on runG0 = SliceSource semantics (runG refines it; C07 carries capture-free reads to every conforming source). Under open captures (inside a capture closure, to any depth) the reads behave as without them, the capture recording exactly the octets moved over (C11c.framable_pnv), so absence leaves source, capture and Constructed untouched there too (C11c.absent_untouched_framed, absent_untouched_if_framed). Edge the theorems make explicit: with no octets left in view (truncated input) a tagged optional read reports absence in every state; the parent's exhaustion check then rejects the input.")
